@@ -1,6 +1,8 @@
 // Package htmldoc provides HTML document parsing.
 package htmldoc
 
+import "strings"
+
 // parsedElement represents a parsed element from the HTML document.
 type parsedElement struct {
 	Type    ElementType
@@ -72,43 +74,116 @@ type TableCell struct {
 }
 
 // ToMarkdown converts the table to markdown format.
+//
+// The cells are first laid out on the table's column grid, so that every row
+// has one Markdown cell per grid column: a cell spanning several columns is
+// followed by empty cells, and the positions a cell spanning several rows
+// covers in the rows below are empty cells. The first row becomes the Markdown
+// header row (pipe tables cannot do without one) and is written once.
 func (t *ParsedTable) ToMarkdown() string {
 	if len(t.Rows) == 0 {
 		return ""
 	}
 
-	var result string
+	grid := t.grid()
+	if len(grid) == 0 || len(grid[0]) == 0 {
+		return ""
+	}
+
+	var result strings.Builder
+	writeRow := func(row []string) {
+		result.WriteString("|")
+		for _, text := range row {
+			result.WriteString(" " + escapeMarkdown(text) + " |")
+		}
+		result.WriteString("\n")
+	}
 
 	// First row (header or first data row)
-	firstRow := t.Rows[0]
-	result += "|"
-	for _, cell := range firstRow {
-		result += " " + escapeMarkdown(cell.Text) + " |"
-	}
-	result += "\n"
+	writeRow(grid[0])
 
 	// Separator
-	result += "|"
-	for range firstRow {
-		result += " --- |"
+	result.WriteString("|")
+	for range grid[0] {
+		result.WriteString(" --- |")
 	}
-	result += "\n"
+	result.WriteString("\n")
 
-	// Data rows (skip first if it was header)
-	startRow := 1
-	if !t.HasHeader && len(t.Rows) > 1 {
-		startRow = 0
+	// Remaining rows
+	for _, row := range grid[1:] {
+		writeRow(row)
 	}
 
-	for i := startRow; i < len(t.Rows); i++ {
-		result += "|"
-		for _, cell := range t.Rows[i] {
-			result += " " + escapeMarkdown(cell.Text) + " |"
+	return result.String()
+}
+
+// Limits on span attributes, as in the HTML table model.
+const (
+	maxColSpan = 1000
+	maxRowSpan = 65534
+)
+
+// grid returns the cell texts of the table placed on its column grid, all rows
+// padded to the same width.
+func (t *ParsedTable) grid() [][]string {
+	rows := make([][]string, 0, len(t.Rows))
+	var covered []int // per column: rows below still covered by a rowspan
+	width := 0
+
+	for _, cells := range t.Rows {
+		var row []string
+		col := 0
+		skipCovered := func() {
+			for col < len(covered) && covered[col] > 0 {
+				covered[col]--
+				row = append(row, "")
+				col++
+			}
 		}
-		result += "\n"
+		for _, cell := range cells {
+			skipCovered()
+			colSpan, rowSpan := cell.ColSpan, cell.RowSpan
+			if colSpan < 1 {
+				colSpan = 1
+			} else if colSpan > maxColSpan {
+				colSpan = maxColSpan
+			}
+			if rowSpan < 1 {
+				rowSpan = 1
+			} else if rowSpan > maxRowSpan {
+				rowSpan = maxRowSpan
+			}
+			row = append(row, cell.Text)
+			for i := 1; i < colSpan; i++ {
+				row = append(row, "")
+			}
+			for len(covered) < col+colSpan {
+				covered = append(covered, 0)
+			}
+			for i := 0; i < colSpan; i++ {
+				covered[col+i] = rowSpan - 1
+			}
+			col += colSpan
+		}
+		skipCovered()
+		// Columns beyond the last cell of a short row still use up one covered row
+		for c := col; c < len(covered); c++ {
+			if covered[c] > 0 {
+				covered[c]--
+			}
+		}
+		if len(row) > width {
+			width = len(row)
+		}
+		rows = append(rows, row)
 	}
 
-	return result
+	for i := range rows {
+		for len(rows[i]) < width {
+			rows[i] = append(rows[i], "")
+		}
+	}
+	return rows
 }
 
 // escapeMarkdown escapes special markdown characters in text.
